@@ -1,7 +1,7 @@
 // @unit c16_head property=C16 attach=typify-impl/src/lib.rs
-// @h c16_head_known_key tier=both bounded=batch-of-1-definition,1-known-reference-key
-// @h c16_head_fresh_key tier=both bounded=batch-of-1-definition
-// @h c16_head_empty_batch tier=both
+// @h c16_head_known_key tier=both bounded=batch-of-1-definition,1-known-reference-key,literal-next_id
+// @h c16_head_fresh_key tier=both bounded=batch-of-1-definition,literal-next_id
+// @h c16_head_empty_batch tier=both bounded=literal-next_id
 // @canary canary_c16_head
 //
 // C16 -- identifier pre-assignment for a batch of references (the first statements of
@@ -28,8 +28,9 @@ macro_rules! stubs {
 
 fn check(known: bool, batch: bool) {
     let mut ts = empty_type_space();
-    let base: u64 = kani::any();
-    kani::assume(base >= 2 && base < u64::MAX - 8);
+    // a symbolic next_id does not terminate (15 min) although it is only ever stored as a
+    // VALUE of the map; the history is therefore a literal: seven identifiers handed out before
+    let base: u64 = 7;
     ts.next_id = base;
     if known {
         ts.ref_to_id.insert(RefKey::Root, TypeId(1));
